@@ -146,7 +146,7 @@ AsOutcome(v) == CASE v = "T" -> Ok(<<B(TRUE)>>) [] v = "F" -> Ok(<<B(FALSE)>>) [
 PermittedCmp(op, l, r) ==
   IF op \in {"=", "!="} THEN
      {AsOutcome(IF op = "=" THEN v ELSE Neg3(v)) : v \in CollEqSet(l, r)}
-  ELSE IF Len(l) = 0 \/ Len(r) = 0 THEN {Ok(<<>>)}
+  ELSE IF Len(l) = 0 \/ Len(r) = 0 THEN {IF Mutant = "cmpEmptyIsFalse" THEN Ok(<<B(FALSE)>>) ELSE Ok(<<>>)}
   ELSE IF Len(l) > 1 \/ Len(r) > 1 THEN {ErrAny}
   ELSE UNION {IF v = "X" THEN {ErrAny, Ok(<<>>)} ELSE {AsOutcome(v)} : v \in OpSet(op, l[1], r[1])}
 =============================================================================
